@@ -19,7 +19,7 @@ RULE = ('case = (implementation, input length, threads, chunk size, sort flag, i
         'over controller choices. distinct = distinct realised (impl, n, threads, chunk, sort, raise-set, '
         'finish sequence) tuples measured from f itself; non-trivial = threads>1 and n>=2 (a real pool ran) '
         'or a chunked() case with a non-multiple length')
-REQUIRED = ['parallel_runs', 'orders_out_of_input_order', 'exceptions_propagated', 'chunked_checked',
+REQUIRED = ['parallel_runs', 'runs_with_exc_outputs', 'runs_with_none_outputs', 'runs_with_dict_outputs', 'orders_out_of_input_order', 'exceptions_propagated', 'chunked_checked',
             'unsorted_runs', 'exhaustive_configs']
 ASSUMPTIONS = ['parallel_map is called from the main thread of a process (it needs the thread\'s asyncio event loop)',
                'completion order is dictated by releasing blocked calls of f one at a time; the realised order is '
@@ -37,6 +37,23 @@ def out_of(x):
     return ((x * 2654435761) % 1000003, x)
 
 
+class ReturnedError(Exception):
+    """an exception object that f RETURNS as an ordinary value (never raised)"""
+
+
+def make_out(kind):
+    """element -> output; every output identifies its element; kinds other than `tuple` are values a map must pass through untouched"""
+    if kind == 'exc':
+        return lambda x: ReturnedError(x) if x % 3 != 1 else out_of(x)
+    if kind == 'none':
+        return lambda x: None if x % 2 else out_of(x)
+    if kind == 'dict':
+        return lambda x: {'x': x, 'h': out_of(x)[0]}           # not orderable
+    if kind == 'falsy':
+        return lambda x: [0, '', [], False, 0.0][x % 5] if x % 2 else out_of(x)
+    return out_of
+
+
 class Controller:
     """Dictates the order in which blocked calls of f return."""
 
@@ -51,6 +68,7 @@ class Controller:
         self.threads = threads
         self.chunks = chunks         # list of lists (model of chunk layout)
         self.raise_set = raise_set
+        self.out = out_of
         self.main_done = False
         self.timeout = False
         self.sequential = threads == 1
@@ -71,7 +89,7 @@ class Controller:
             self.cond.notify_all()
         if x in self.raise_set:
             raise BoomError(x)
-        return out_of(x)
+        return self.out(x)
 
     # controller thread ------------------------------------------------------------------------
     def _loop(self):
@@ -142,6 +160,7 @@ def run_once(cfg, prefix):
 
     chunks = model_chunks(xs, cfg['impl'], threads, chunksize)
     ctl = Controller(xs, threads, chunks, chooser, raise_set)
+    ctl.out = make_out(cfg.get('out', 'tuple'))
     inp = xs if cfg.get('input', 'list') == 'list' else (x for x in xs)
     if cfg.get('input') == 'tuple':
         inp = tuple(xs)
@@ -174,7 +193,10 @@ def judge(cfg, ob, res: CaseResult):
     if ob['timeout']:
         res.inconclusive.append(f'controller watchdog fired for {cfg}')
         return
-    expect = [out_of(x) for x in xs]
+    out = make_out(cfg.get('out', 'tuple'))
+    expect = [out(x) for x in xs]
+    if cfg.get('out', 'tuple') != 'tuple':
+        res.count('runs_with_' + cfg['out'] + '_outputs')
     if ob['raise_set']:
         if exc is None:
             res.violate(f'f raised for elements {sorted(ob["raise_set"])} but parallel_map returned {repr(result)[:200]}',
@@ -192,7 +214,7 @@ def judge(cfg, ob, res: CaseResult):
     if any(ob['calls'].get(x, 0) != 1 for x in xs) or len(ob['calls']) != len(xs):
         res.violate(f'f not invoked exactly once per element: {ob["calls"]}', witness=wit)
     if cfg.get('sort', True) or cfg['impl'] == 'iter':
-        if result != expect:
+        if repr(result) != repr(expect):
             res.violate(f'result differs from sequential map: got {repr(result)[:300]} expected {repr(expect)[:300]} '
                         f'(finish order {ob["finish"]})', witness=wit)
     else:
@@ -202,7 +224,7 @@ def judge(cfg, ob, res: CaseResult):
         if ok:
             for ch in ob['chunks']:
                 sl = result[pos:pos + len(ch)]
-                if sorted(sl) != sorted(out_of(x) for x in ch):
+                if sorted(map(repr, sl)) != sorted(repr(out(x)) for x in ch):
                     ok = False
                 pos += len(ch)
         if not ok:
@@ -325,6 +347,9 @@ def cases(tier, seed):
                             continue
                         for sort in (True, False):
                             enum_cfgs.append({'impl': impl, 'n': n, 'threads': threads, 'chunk': chunk, 'sort': sort})
+                            if n == 3:
+                                for out in ('exc', 'none', 'dict'):
+                                    enum_cfgs.append({'impl': impl, 'n': n, 'threads': threads, 'chunk': chunk, 'sort': sort, 'out': out})
     # exceptions under all orders for a few configs
     for impl in ('threading', 'iter'):
         for n, threads in ((3, 2), (4, 3), (4, 4)):
@@ -348,7 +373,7 @@ def cases(tier, seed):
         cfg = {'impl': impl, 'n': n, 'threads': threads, 'chunk': chunk,
                'sort': rng.random() < 0.7, 'policy': rng.choice(['random', 'reverse', 'rotate', 'random']),
                'pseed': rng.randrange(1 << 30), 'input': rng.choice(['list', 'list', 'gen', 'tuple']),
-               'tqdm': rng.random() < 0.2}
+               'tqdm': rng.random() < 0.2, 'out': rng.choice(['tuple', 'tuple', 'exc', 'none', 'dict', 'falsy'])}
         if impl == 'starmap':
             cfg['input'] = 'list'
         if n and rng.random() < 0.2:
